@@ -1038,14 +1038,64 @@ def search(ctx):
                     seen_sig.add(sig)
                     ctx.fail(sig, what, {"case": c})
     ctx._c07_searched = True
+    generic_option_space(ctx, dfols, seen_sig)
     prev = ctx.cov.get("search", {})
     ctx.cov["search"] = {"solve_calls": ran + prev.get("solve_calls", 0), "by_expectation": stats, "failing_signatures": outcomes,
                          "cases_skipped_time_budget": skipped_budget, "cases_skipped_boundary_value_already_failing": skipped_culprit, "documented_flags": DOCUMENTED_FLAGS,
                          "user_guide_constants": GUIDE_EXITS}
 
 
+def generic_option_space(ctx, dfols, seen_sig):
+    """solve over the random configurations of the documented option space used by the trace properties
+    (bounds / one-sided / scaling / projections / averaging / restarts / npt / growing / regression / noise /
+    diagnostics / tolerances, budgets from 1): every call must RETURN a result with a documented flag, a non-empty
+    message, and str() must work.  An exception that is not the objective's own is a violation, named by type and
+    raise site."""
+    import traceback
+    import solve_suite as ss
+    n = ctx.scale(110, 2500) * getattr(ctx, "boost", 1)
+    stats = {"runs": 0, "exceptions": {}, "flags": {}}
+    for i in range(n):
+        seed = [ctx.seed, 7070, i]
+        prob, kw, d, t = ss.gen_run(dfols, seed, alarm=20)
+        stats["runs"] += 1
+        ctx.seen(("c07generic", i))
+        sig = what = None
+        if isinstance(t.exception, core.Alarm):
+            sig, what = "C07:generic:does-not-terminate", "no termination within 20 s: %s" % (ss.describe(d),)
+        elif t.exception is not None:
+            tb = traceback.extract_tb(t.exception.__traceback__)
+            site = next(("%s:%s" % (fr.filename.split("/")[-1], fr.name) for fr in reversed(tb) if "/dfols/" in fr.filename), "outside-dfols")
+            sig = "C07:generic:raises:%s:%s" % (type(t.exception).__name__, site)
+            what = "solve raised %s: %s (at %s) for %s" % (type(t.exception).__name__, str(t.exception)[:80], site, ss.describe(d))
+            stats["exceptions"][sig] = stats["exceptions"].get(sig, 0) + 1
+        elif t.result is not None:
+            r = t.result
+            stats["flags"][int(r.flag)] = stats["flags"].get(int(r.flag), 0) + 1
+            try:
+                txt = str(r)
+            except Exception as e:
+                sig, what = "C07:generic:str-raises:%s" % type(e).__name__, "str(soln) raised %r" % (e,)
+            else:
+                if int(r.flag) not in DOCUMENTED_FLAGS:
+                    sig, what = "C07:generic:undocumented-flag:%d" % int(r.flag), "flag %r" % (r.flag,)
+                elif not str(r.msg).strip():
+                    sig, what = "C07:generic:empty-message", "empty message with flag %r" % (r.flag,)
+        if sig is not None and sig not in seen_sig:
+            seen_sig.add(sig)
+            ctx.fail(sig, what, {"generic_seed": seed})
+    ctx.cov["generic_option_space"] = stats
+
+
 def replay(payload):
     rp = payload.get("replay", {})
+    if rp.get("generic_seed"):
+        import solve_suite as ss
+        dfols = core.import_dfols()
+        prob, kw, d, t = ss.gen_run(dfols, rp["generic_seed"], alarm=20)
+        bad = t.exception is not None
+        print("replay:", "still raises %r" % (t.exception,) if bad else "property holds on this input now")
+        return 1 if bad else 0
     if rp.get("import"):
         try:
             core.import_dfols()
